@@ -932,6 +932,115 @@ def gen_lifecycle_cases(rng, full):
     return out
 
 
+# ---- histories of calls in one process during which the set of known detail types changes ----------------------------
+
+_LATE = {'n': 0}
+
+
+def late_type():
+    """a fresh protobuf message type (unique name per process) that the client does not know yet, plus the action that
+    makes it known -- what importing its generated pb2 module does: add the file to the default descriptor pool and
+    register the class in the default symbol database"""
+    import os
+    from google.protobuf import descriptor_pb2, descriptor_pool, message_factory, symbol_database
+    _LATE['n'] += 1
+    tag = 'p%dn%d' % (os.getpid(), _LATE['n'])
+    fdp = descriptor_pb2.FileDescriptorProto(name='verif_late_%s.proto' % tag, package='verif.late.' + tag, syntax='proto3')
+    m = fdp.message_type.add(name='Late')
+    m.field.add(name='text', number=1, type=descriptor_pb2.FieldDescriptorProto.TYPE_STRING, label=1)
+    m.field.add(name='n', number=2, type=descriptor_pb2.FieldDescriptorProto.TYPE_INT64, label=1)
+    name = 'verif.late.%s.Late' % tag
+    pool = descriptor_pool.DescriptorPool()
+    pool.Add(fdp)
+    cls = message_factory.GetMessageClass(pool.FindMessageTypeByName(name))
+
+    def register():
+        d = descriptor_pool.Default()
+        d.Add(fdp)
+        symbol_database.Default().RegisterMessage(message_factory.GetMessageClass(d.FindMessageTypeByName(name)))
+    return name, cls, register
+
+
+def e2e_history(case):
+    """several failed calls in ONE process; between two of them a detail type becomes known to the client.  Every call
+    must carry the status and message, and each detail as the real message iff its type is known AT THAT TIME."""
+    from grpclib.const import Status
+    _quiet()
+    st = Status(case['st'])
+    msg = None if case['msg'] is None else uncpl(case['msg'])
+    name, cls, register = late_type()
+    text = uncpl(case.get('text') or [120])
+    others = [build_detail(s) for s in (case.get('details') or [])]
+    details = [cls(text=text, n=case.get('n', 7))] + others
+    known = False
+    out = []
+    for step in case['steps']:
+        if step == 'register':
+            register()
+            known = True
+            continue
+        how = step
+        log = []
+
+        async def handler(stream):
+            await stream.recv_message()
+            if how == 'send':
+                await stream.send_trailing_metadata(status=st, status_message=msg, status_details=details)
+            else:
+                raise make_error(case.get('exc'), st, msg, details)
+
+        async def body(s, got):
+            await s.send_message(b'q', end=True)
+            got['replies'].append(await s.recv_message())
+        o, got, extra = run_pair([Service('v.S', {'M': (handler, 'UU')})], recording_proto_codec(log), case.get('cut'),
+                                 'UU', body, case.get('sub'))
+        obs = lc_observe(o, got, log, extra)
+        obs.pop('codec_log')
+        want = [(name, details[0].SerializeToString(deterministic=True)) if known else ('unknown', name)] + \
+            [('unknown', type(d).DESCRIPTOR.full_name) if type(d) is private_type()
+             else (type(d).DESCRIPTOR.full_name, d.SerializeToString(deterministic=True)) for d in others]
+        out.append({'known': known, 'obs': obs, 'want': want})
+    return out
+
+
+def check_history(ctx, res, cases):
+    for case in cases:
+        calls = e2e_history(case)
+        res.evaluations += 1
+        res.count('e2e-hist:%s' % '>'.join(case['steps']))
+        res.signatures.add(('e2e-hist', tuple(case['steps']), case.get('sub'), len(case.get('details') or [])))
+        res.sample({'op': 'e2e-hist', 'steps': case['steps'], 'calls': [c['obs'] for c in calls]}, limit=2)
+        for i, c in enumerate(calls):
+            obs, bad = c['obs'], None
+            if obs.get('exc') != 'GRPCError':
+                bad = ('call %d ended with %s instead of the GRPCError the handler reported' % (
+                    i + 1, obs.get('exc') or obs['outcome']), 'no-grpc-error')
+            elif obs['status'] != case['st']:
+                bad = ('call %d: status changed' % (i + 1), 'status-changed')
+            elif obs['message'] != case['msg']:
+                bad = ('call %d: message changed' % (i + 1), 'message-changed')
+            elif obs['details'] is None or [tuple(x) for x in obs['details']] != c['want']:
+                bad = ('call %d: details differ from what the handler reported given the detail types known to the client '
+                       'at that time (late type known: %s)' % (i + 1, c['known']), 'details-changed')
+            if bad:
+                res.oracle_failures.append({'case': case, 'what': bad[0],
+                                            'signature': {'op': 'e2e-hist', 'kind': bad[1], 'known': c['known']},
+                                            'observed': [x['obs'] for x in calls]})
+                break
+
+
+HIST_STEPS = [['raise', 'register', 'raise'], ['raise', 'raise', 'register', 'send', 'raise'], ['register', 'raise'],
+              ['send', 'register', 'send'], ['raise', 'raise']]
+
+
+def gen_history_case(rng, steps=None):
+    return {'op': 'e2e-hist', 'steps': steps or rng.choice(HIST_STEPS), 'st': rng.choice([s.value for s in status_members()
+                                                                                         if s.value != 0]),
+            'msg': _scalars(gen_msg(rng))[:20], 'text': _scalars(gen_msg(rng))[:8], 'n': rng.choice([0, 1, 2 ** 40]),
+            'details': [[rng.choice(DETAIL_KINDS), _scalars(gen_msg(rng))[:6], 1] for _ in range(rng.choice([0, 0, 1, 2]))],
+            'exc': rng.choice(EXC_KINDS), 'sub': rng.choice(SUBTYPES), 'cut': rng.choice([None, rng.randint(1, 10 ** 6)])}
+
+
 def oracle_e2e(case, obs, details):
     """the property statement itself: the client's GRPCError carries the status, message and details the handler reported"""
     st = case['st']
@@ -1328,9 +1437,12 @@ def run(ctx):
                 '(error before / after a reply; RST after the trailers when the client has not half-closed) and once with a '
                 'scripted server (trailers-only / full response, then nothing / RST_STREAM / GOAWAY / connection loss); '
                 'quick = PRNG half of the cells, thorough = all; every case of (c)-(f) runs with a message codec of content '
-                'subtype proto / json / x-raw.v1 configured on BOTH end points (scripted peers label their side to match). '
+                'subtype proto / json / x-raw.v1 configured on BOTH end points (scripted peers label their side to match); '
+                '(g) histories of 2-4 failed calls in one process between which a fresh detail type becomes known to the '
+                'client (file added to the default pool + class registered in the symbol database, as importing a pb2 module '
+                'does): each call must carry the detail as Unknown / as the real message according to the time of the call. '
                 'distinct = distinct (op, status, how, message class, detail kinds / header shape) signature')
-    encs, decs, u8ds, trs, rcvs, e2es = [], [], [], [], [], []
+    encs, decs, u8ds, trs, rcvs, e2es, hists = [], [], [], [], [], [], []
     for c in ctx.corpus() + [h for h in getattr(ctx, 'hints', []) if isinstance(h, dict)]:
         c = expand(c)
         op = c.get('op')
@@ -1348,6 +1460,8 @@ def run(ctx):
             rcvs.append(c)
         elif op in ('e2e', 'e2e-lc', 'e2e-peer'):
             e2es.append(c)
+        elif op == 'e2e-hist':
+            hists.append(c)
     n = ctx.n(10000, 150000)
     # (a)
     encs += one_char_strings(rng, ctx.n(150, 5000))
@@ -1405,6 +1519,9 @@ def run(ctx):
     e2es.append({'op': 'e2e', 'st': 0, 'msg': [120], 'details': None, 'how': 'send-after-message'})
     with_subtypes(rng, e2es)
     check_e2e(ctx, res, e2es)
+    # (g) histories
+    hists += [gen_history_case(rng, s) for s in HIST_STEPS] + [gen_history_case(rng) for _ in range(ctx.n(40, 600))]
+    check_history(ctx, res, hists)
     return res
 
 
@@ -1426,4 +1543,6 @@ def replay(ctx, case):
         check_receive(ctx, res, [c])
     elif op in ('e2e', 'e2e-lc', 'e2e-peer'):
         check_e2e(ctx, res, [c])
+    elif op == 'e2e-hist':
+        check_history(ctx, res, [c])
     return res
